@@ -29,7 +29,7 @@ theorem extract_content_tie :
 
 /-- each pass converts a fresh clone of the same document element -/
 theorem convert_clone_tie :
-    Gen.converterConvertBody = ["clone := dom.Clone(root, true)", "domutil.RemoveDuplicateAttributes(clone)",
+    Gen.converterConvertBody = ["clone := domutil.Clone(root, true)", "domutil.RemoveDuplicateAttributes(clone)",
       "domutil.WalkNodes(clone, dc.visitNodeHandler, dc.exitNodeHandler)"] ∧
     Gen.createWebDocumentBody = ["docBuilder := webdoc.NewWebDocumentBuilder(ce.WordCounter, ce.pageURL)",
       "converter.NewDomConverter(flags, docBuilder, ce.pageURL, ce.logger).Convert(ce.documentElement)",
